@@ -60,8 +60,10 @@ def parse (n : Nat) (prev : Option (Msg × Parsed)) (m : Msg) : Parsed :=
 
 structure Client where
   n : Nat
-  /-- index of Exception (and of no `Err*` state, which the generated schemas lack) -/
+  /-- index of Exception -/
   exc : Nat
+  /-- indexes of the states whose name starts with `Err` -/
+  errSt : List Nat := []
   msgs : List Msg := []
   parsed : List Parsed := []
   /-- indexes of records with an active error state, newest first -/
@@ -75,7 +77,7 @@ def Client.push (c : Client) (m : Msg) : Client :=
   let p := parse c.n prev m
   let idx := c.msgs.length
   let bad := match prev with | some (pm, _) => csum m.clocks < csum pm.clocks | none => false
-  let isErr := !bad && isActiveTick (m.clocks.getD c.exc 0)
+  let isErr := !bad && (c.errSt.any (fun e => isActiveTick (m.clocks.getD e 0)) || isActiveTick (m.clocks.getD c.exc 0))
   { c with msgs := c.msgs ++ [m], parsed := c.parsed ++ [p],
            errors := if isErr then idx :: c.errors else c.errors }
 
